@@ -10,12 +10,14 @@
 (* (the implementation's start w = 0 has mean 0, outside the domain of the *)
 (* deviance); identity link with power > 0 uses targets y + 1 >= 2 so that *)
 (* the optimum stays well inside mu > 0.                                   *)
+(* UnitInit: the same integer targets in the units 2^-10, 2^-20, 2^-30 and *)
+(* 2^10 for the log link.                                                  *)
 (* A second family probes the support check: targets containing 0 or a     *)
 (* negative value for every power.                                         *)
 (***************************************************************************)
 EXTENDS Integers, Sequences, FiniteSets, TLC, Json
 
-CONSTANTS NGlm, XMax, YSet, ThinD, Thin
+CONSTANTS NGlm, XMax, YSet, ThinD, Thin, UnitCodes, ThinU
 
 VARIABLE case
 
@@ -50,7 +52,7 @@ MainInit ==
            /\ case = [kind |-> "glm",
                       inp |-> [x |-> [q \in 1..n |-> Row(form, xs[q], q)], p |-> form + 1, q |-> QRows(form),
                                y |-> yy, yd |-> IF eff = "logit" THEN 4 ELSE 1,
-                               pn |-> pw.n, pd |-> pw.d, link |-> lk, an |-> an, ad |-> 10, icpt |-> ic,
+                               pn |-> pw.n, pd |-> pw.d, link |-> lk, an |-> an, ad |-> 10, icpt |-> ic, ue |-> 0,
                                maxit |-> 2000, te |-> IF (h \div 7) % 4 = 0 THEN 4 ELSE 6]]
 
 \* support probes: the first target is 0 or negative
@@ -59,11 +61,35 @@ SupportInit ==
     LET pw == Powers[pi] IN
     case = [kind |-> "glm",
             inp |-> [x |-> << <<0>>, <<1>>, <<2>>, <<1>> >>, p |-> 1, q |-> QRows(0),
-                     y |-> <<y1, 2, 3, 1>>, yd |-> yd,
+                     y |-> <<y1, 2, 3, 1>>, yd |-> yd, ue |-> 0,
                      pn |-> pw.n, pd |-> pw.d, link |-> Links[li], an |-> an, ad |-> 10, icpt |-> TRUE,
                      maxit |-> 2000, te |-> 6]]
 
-Init == MainInit \/ SupportInit
+\* target-unit family (log link, explicit or default, with intercept; powers 1, 3/2, 2, 3): the integer targets of the main
+\* family measured in the unit 2^ue, ue in {-10, -20, -30, 10} selected by UnitCodes (exact in binary floating point). A change of unit shifts the intercept by
+\* ue ln 2 and multiplies the data part of the gradient by 2^k, k = ue (2 - p). The solver tolerance 10^-te is chosen so
+\* that the tolerance relative to the data part stays about 10^-6 (k <= 0: te = 6; k = 5: te = 5). Only k <= 5 is generated:
+\* for a data gradient of magnitude 2^7 and more (Poisson counts in the hundreds, power 3 with tiny units) the L-BFGS line
+\* search of the unchanged tree does not return (an observation about termination, outside the statement).
+TeOf(k) == IF k <= 0 THEN 6 ELSE IF k <= 5 THEN 5 ELSE IF k <= 10 THEN 3 ELSE IF k <= 20 THEN 0 ELSE -3
+UnitInit ==
+  \E n \in NGlm : \E xs \in Sorted(n, XMax), ys \in [1..n -> YSet] :
+    /\ Hash(xs, ys) % ThinD = 0
+    /\ \E pi \in 2..5, li \in {2, 4}, ai \in 0..2, form \in {0, 1}, uc \in UnitCodes :
+        LET pw == Powers[pi]
+            ue == <<-10, -20, -30, 10>>[uc]          \* the cfg file cannot hold negative numbers
+            an == <<0, 1, 10>>[ai + 1]
+            k == (ue * (2 * pw.d - pw.n)) \div pw.d
+            h == 31 * Hash(xs, ys) + 17 * ((pi - 2) + 4 * (li \div 4) + 8 * ai + 24 * form) + 7 * uc
+        IN /\ h % ThinU = 0
+           /\ k <= 5          \* larger k (Poisson targets x 2^10, power 3 in tiny units): the fit does not return, see report
+           /\ case = [kind |-> "glm",
+                      inp |-> [x |-> [q \in 1..n |-> Row(form, xs[q], q)], p |-> form + 1, q |-> QRows(form),
+                               y |-> ys, yd |-> 1, ue |-> ue,
+                               pn |-> pw.n, pd |-> pw.d, link |-> Links[li], an |-> an, ad |-> 10, icpt |-> TRUE,
+                               maxit |-> 2000, te |-> TeOf(k)]]
+
+Init == MainInit \/ SupportInit \/ UnitInit
 Next == UNCHANGED case
 Emit == PrintT("CASE " \o ToJson(case))
 =============================================================================
